@@ -118,9 +118,5 @@ pub fn run(hp: &HistProp, tier: Tier, seed: u64) -> i32 {
     if !rep.failed() {
         rep.add(random_block(hp, "random_histories", seed, tier.pick(hp.quick_cases, hp.thorough_cases)));
     }
-    if !rep.failed() && tier == Tier::Thorough && hp.id == "C01" {
-        // coverage-guided campaign over op histories with the C01/C02/C03 oracles in the target
-        rep.add(run::fuzz_block("ops", 400_000, seed, 1024));
-    }
     rep.finish()
 }
